@@ -35,6 +35,8 @@ class Fn:
             if isinstance(op, ast.Lt) and isinstance(r, ast.Call) and getattr(r.func,'id',None)=='len' and 'scan' in env:
                 k = self.index_offset(l, env)
                 return '(has_at %d %s)' % (k, env['scan']['rest'])
+            if isinstance(op, ast.Gt) and isinstance(l, ast.Name) and self.cfg['types'].get(l.id)=='int' and isinstance(r, ast.Constant) and isinstance(r.value, int):
+                return '(%d <? %s)' % (r.value, self.expr(l, env))
             if isinstance(op, (ast.Eq, ast.NotEq)):
                 le, re_ = self.expr(l, env), self.expr(r, env)
                 if self.is_char(l, env) or self.is_char(r, env):
@@ -51,6 +53,8 @@ class Fn:
             return '(%s ++ %s)' % (self.as_str(e.left, env), self.as_str(e.right, env))
         if isinstance(e, ast.Call):
             f = e.func
+            if isinstance(f, ast.Attribute) and f.attr=='strip' and not e.args:
+                return '(py_strip %s)' % self.expr(f.value, env)
             if isinstance(f, ast.Attribute) and f.attr=='join' and isinstance(f.value, ast.Constant) and f.value.value=='':
                 return self.expr(e.args[0], env)          # "".join(buf) with buf modelled as a string
             if isinstance(f, ast.Attribute) and f.attr=='match' and isinstance(f.value, ast.Name) and f.value.id in self.cfg.get('regexes', {}):
@@ -97,6 +101,9 @@ class Fn:
         if isinstance(s, ast.AugAssign) and isinstance(s.target, ast.Name) and 'scan' in env and s.target.id==env['scan']['i'] and isinstance(s.op, ast.Add) and isinstance(s.value, ast.Constant) and s.value.value>0:
             env2 = dict(env); env2['scan'] = dict(env['scan']); env2['scan']['k'] += s.value.value
             return self.stmts(rest, env2, k)
+        if isinstance(s, ast.AugAssign) and isinstance(s.target, ast.Name) and self.cfg['types'].get(s.target.id)=='int' and isinstance(s.value, ast.Constant) and s.value.value==1 and isinstance(s.op, (ast.Add, ast.Sub)) and not ('scan' in env and s.target.id==env['scan']['i']):
+            v = s.target.id; env2 = dict(env); nm = self.fresh(v); env2[v]=nm
+            return '(let %s := %s in\n%s)' % (nm, ('S %s' if isinstance(s.op, ast.Add) else 'Nat.pred %s') % env[v], self.stmts(rest, env2, k))
         if isinstance(s, ast.Expr) and isinstance(s.value, ast.Call):
             c = s.value
             if isinstance(c.func, ast.Attribute) and c.func.attr=='append' and isinstance(c.func.value, ast.Name):
@@ -112,6 +119,7 @@ class Fn:
         if isinstance(s, ast.If):
             c = self.cond(s.test, env)
             return '(if %s\n then %s\n else %s)' % (c, self.stmts(s.body + rest, env, k), self.stmts(s.orelse + rest, env, k))
+        if isinstance(s, ast.While) and 'while' in env: return env['while'](s, env, lambda e2: self.stmts(rest, e2, k))
         if isinstance(s, ast.For) and 'for' in env: return env['for'](s, env, lambda e2: self.stmts(rest, e2, k))
         if isinstance(s, ast.Continue): return env['continue'](env)
         if isinstance(s, ast.Raise):
@@ -132,6 +140,10 @@ Notation "a =c b" := (Ascii.eqb a b) (at level 70).
 Definition at_ (k : nat) (l : str) : ascii := nth k l (c 0).
 Definition has_at (k : nat) (l : str) : bool := k <? List.length l.
 Definition isnil (l : str) : bool := match l with [] => true | _ => false end.
+(* Python str.strip() on ASCII: characters for which str.isspace() holds *)
+Definition py_space (x : ascii) : bool := let n := nat_of_ascii x in ((9 <=? n) && (n <=? 13)) || ((28 <=? n) && (n <=? 32)).
+Fixpoint py_lstrip (l : str) : str := match l with x :: r => if py_space x then py_lstrip r else l | [] => [] end.
+Definition py_strip (l : str) : str := rev (py_lstrip (rev (py_lstrip l))).
 Fixpoint streq (a b : str) : bool := match a, b with [], [] => true | x :: a', y :: b' => (x =c y) && streq a' b' | _, _ => false end.
 Inductive res (A : Type) := Ok (a : A) | Err (site : nat).
 Arguments Ok {A} a. Arguments Err {A} site.
@@ -193,6 +205,40 @@ def gen_fold(path, name, params, types, ctors, regexes, state, ret_ty, coqtypes)
     out += 'Definition %s %s : res %s :=\n%s.\n' % (name, ' '.join('(%s : %s)' % (p, t) for p, t in params.items()), ret_ty, body)
     return out, f.raise_sites
 
+def gen_scan(path, name, params, types, ctors, regexes, state, ret_ty, coqtypes, index, subject):
+    """idiom B over a state tuple: prelude; `while index < len(subject):` with subject[index+c] reads and
+    index += k (k>0) on every path; postlude."""
+    f = Fn(path, name, {'params': params, 'types': types, 'ctors': ctors, 'regexes': regexes, 'coqtypes': coqtypes})
+    tup = lambda env: '(' + ', '.join(env[v] for v in state) + ')'
+    pieces = {}
+    def do_while(node, env, k_after):
+        t = node.test
+        if not (isinstance(t, ast.Compare) and isinstance(t.left, ast.Name) and t.left.id==index and isinstance(t.ops[0], ast.Lt)
+                and isinstance(t.comparators[0], ast.Call) and getattr(t.comparators[0].func,'id',None)=='len'
+                and t.comparators[0].args[0].id==subject and not node.orelse):
+            raise Untranslatable('while shape')
+        env_in = dict(env)
+        for v in state: env_in[v] = v
+        def call(e):
+            if e['scan']['k'] <= 0: raise Untranslatable('index does not advance on some path')
+            return "%s_loop fuel' (skipn %d rest) %s" % (name, e['scan']['k'], tup(e))
+        env_in['scan'] = {'i': index, 's': subject, 'rest': 'rest', 'k': 0}
+        env_in['continue'] = call
+        env_in.pop('while', None)
+        pieces['body'] = f.stmts(node.body, env_in, call)
+        env_out = dict(env)
+        for v in state: env_out[v] = v + "'"
+        return ('(match %s_loop (List.length %s) %s %s with\n | Err e => Err e\n | Ok st => let \'(%s) := st in\n%s end)'
+                % (name, subject, subject, tup(env), ', '.join(v + "'" for v in state), k_after(env_out)))
+    env = {'while': do_while, 'return': lambda e: 'Ok ' + e}
+    body_stmts = [s for s in f.fn.body if not (isinstance(s, (ast.Assign, ast.AnnAssign)) and getattr(getattr(s, 'targets', [getattr(s, 'target', None)])[0], 'id', None) == index)]
+    body = f.stmts(body_stmts, env, lambda e: (_ for _ in ()).throw(Untranslatable('falls off the end')))
+    st_ty = 'STATE_' + name
+    out  = ('Fixpoint %s_loop (fuel : nat) (rest : str) (st : %s) : res %s :=\n  match fuel with O => (if has_at 0 rest then Err 0 else Ok st) | S fuel\' =>\n  if has_at 0 rest then\n  let \'(%s) := st in\n%s\n  else Ok st end.\n'
+            % (name, st_ty, st_ty, ', '.join(state), pieces['body']))
+    out += 'Definition %s %s : res %s :=\n%s.\n' % (name, ' '.join('(%s : %s)' % (p, t) for p, t in params.items()), ret_ty, body)
+    return out, f.raise_sites
+
 def gen_regex(name, pattern):
     p = sre_parse.parse(pattern)
     items = list(p)
@@ -234,4 +280,13 @@ if __name__=='__main__':
                    ctors={'_NPathSegment': ['name','quoted']}, regexes={'_NPATH_IDENTIFIER_RE': 're_npath_ident'},
                    state=['segments','buffer','in_quotes','quoted_segment','escape'], ret_ty='(list (str * bool))',
                    coqtypes={'segments': 'list (str * bool)', 'buffer': 'str'})
+    print(out); print('(* raise sites: %d *)' % nraise)
+    print('(* GENERATED from expressions/binding.py:_split_attrpath (idiom B over a state tuple) *)')
+    print('Definition STATE__split_attrpath : Type := (list str * str * bool * bool * nat * bool * bool)%type.')
+    out, nraise = gen_scan(repo + '/nix_manipulator/expressions/binding.py', '_split_attrpath',
+                   params={'text': 'str'},
+                   types={'text':'str','buffer':'strbuf','segments':'list','ch':'char','segment':'str','interp_depth':'int'},
+                   ctors={}, regexes={},
+                   state=['segments','buffer','in_quotes','escape','interp_depth','interp_in_quotes','interp_escape'],
+                   ret_ty='(list str)', coqtypes={'segments': 'list str', 'buffer': 'str'}, index='index', subject='text')
     print(out); print('(* raise sites: %d *)' % nraise)
